@@ -693,8 +693,12 @@ def c02_r6(ctx):
         #  state of other rules)
         none_t = e.edges_of_value_variant({el + (("field", 0),) for el in jl["elem"]}, "None")
         none_h = e.edges_of_value_variant({o + (("field", "rule_history"),) for o in wr}, "None")
-        r = e.reach([b for (_, b) in some_t], avoid_blocks=[w.bb], avoid_edges=none_h) | \
-            e.reach([b for (_, b) in some_h], avoid_blocks=[w.bb], avoid_edges=none_t)
+        # (only the tests that lead to the write within this iteration: a later re-test of the
+        #  same Option, left by drop elaboration, decides nothing)
+        def leads_to_write(edges):
+            return [b for (_, b) in edges if w.bb in e.reach([b], avoid_blocks=[jl["header"]])]
+        r = e.reach(leads_to_write(some_t), avoid_blocks=[w.bb], avoid_edges=none_h) | \
+            e.reach(leads_to_write(some_h), avoid_blocks=[w.bb], avoid_edges=none_t)
         if jl["header"] in r:
             ctx.viol((e.id, "history-write-skipped"), "a finished rule's history can go unwritten", w.where)
         else:
